@@ -44,18 +44,18 @@ func RepoDir() string {
 }
 
 type Program struct {
-	Config  Config
-	Dir     string
-	Fset    *token.FileSet
-	Pkgs    []*packages.Package
-	Prog    *ssa.Program
-	Root    *ssa.Package
-	Field   *ssa.Package
-	Funcs   []*ssa.Function          // every function with a body or an asm stub in the two packages
-	ByName  map[string]*ssa.Function // by RelString-like short name, e.g. "(*Point).Add", "field.(*Element).Add"
-	Asm     map[*ssa.Function]*asm.Summary
-	AsmFile []*asm.File
-	Files   []string // all source files analysed (Go + .s)
+	Config   Config
+	Dir      string
+	Fset     *token.FileSet
+	Pkgs     []*packages.Package
+	Prog     *ssa.Program
+	Root     *ssa.Package
+	Field    *ssa.Package
+	Funcs    []*ssa.Function          // every function with a body or an asm stub in the two packages
+	ByName   map[string]*ssa.Function // by RelString-like short name, e.g. "(*Point).Add", "field.(*Element).Add"
+	Asm      map[*ssa.Function]*asm.Summary
+	AsmFile  []*asm.File
+	Files    []string // all source files analysed (Go + .s)
 	Problems []string // structural assertion failures (fail closed)
 	// FnProblems: structural problems located in one function (scoped by the property drivers)
 	FnProblems []FnProblem
@@ -253,6 +253,7 @@ func Load(cfgName string) (*Program, error) {
 		p.Problems = append(p.Problems, "assembly TEXT "+n+" has no Go declaration")
 	}
 	p.resolveAliases()
+	p.resolveByReference()
 	p.assertStructure()
 	return p, nil
 }
@@ -314,10 +315,11 @@ func (p *Program) RelFile(path string) string {
 }
 
 // StaticCallee resolves the callee of a call instruction; (*sync.Once).Do(f)
-// with a function-literal argument resolves to (Do, literal).
+// with a function-literal or method-value argument resolves to (Do, f). Bound
+// method wrappers (method values) are resolved to the method itself.
 func StaticCallee(c ssa.CallInstruction) (callee *ssa.Function, onceLit *ssa.Function) {
 	cc := c.Common()
-	callee = cc.StaticCallee()
+	callee = unbound(cc.StaticCallee())
 	if callee != nil && callee.Pkg != nil && callee.Pkg.Pkg.Path() == "sync" && callee.Name() == "Do" && len(cc.Args) == 2 {
 		switch a := cc.Args[1].(type) {
 		case *ssa.Function:
@@ -325,8 +327,70 @@ func StaticCallee(c ssa.CallInstruction) (callee *ssa.Function, onceLit *ssa.Fun
 		case *ssa.MakeClosure:
 			onceLit, _ = a.Fn.(*ssa.Function)
 		}
+		onceLit = unbound(onceLit)
 	}
 	return
+}
+
+func isBound(f *ssa.Function) bool {
+	return f != nil && strings.HasPrefix(f.Synthetic, "bound method wrapper")
+}
+
+// unbound maps a bound method wrapper to the method it wraps.
+func unbound(f *ssa.Function) *ssa.Function {
+	if !isBound(f) {
+		return f
+	}
+	if m, ok := f.Object().(*types.Func); ok {
+		if real := f.Prog.FuncValue(m); real != nil {
+			return real
+		}
+	}
+	return f
+}
+
+// Formals are the values a function body starts from: its parameters followed
+// by its free variables. Closures are analysed as if lambda-lifted: a free
+// variable is a pointer parameter bound at the MakeClosure site.
+func Formals(f *ssa.Function) []ssa.Value {
+	out := make([]ssa.Value, 0, len(f.Params)+len(f.FreeVars))
+	for _, p := range f.Params {
+		out = append(out, p)
+	}
+	for _, v := range f.FreeVars {
+		out = append(out, v)
+	}
+	return out
+}
+
+func closureActuals(fn *ssa.Function, args []ssa.Value, bindings []ssa.Value) []ssa.Value {
+	if isBound(fn) {
+		// wrapper(args...) calls method(recv, args...) with recv = the single binding
+		return append(append([]ssa.Value{}, bindings...), args...)
+	}
+	return append(append([]ssa.Value{}, args...), bindings...)
+}
+
+// Actuals are the caller's values matching Formals(callee) of StaticCallee(c).
+func Actuals(c ssa.CallInstruction) []ssa.Value {
+	cc := c.Common()
+	if mc, ok := cc.Value.(*ssa.MakeClosure); ok {
+		fn, _ := mc.Fn.(*ssa.Function)
+		return closureActuals(fn, cc.Args, mc.Bindings)
+	}
+	return cc.Args
+}
+
+// OnceActuals are the caller's values matching Formals(lit) for the function passed to (*sync.Once).Do.
+func OnceActuals(c ssa.CallInstruction) []ssa.Value {
+	cc := c.Common()
+	if len(cc.Args) == 2 {
+		if mc, ok := cc.Args[1].(*ssa.MakeClosure); ok {
+			fn, _ := mc.Fn.(*ssa.Function)
+			return closureActuals(fn, nil, mc.Bindings)
+		}
+	}
+	return nil
 }
 
 // assertStructure checks the facts of DESIGN §1 that the engines rely on.
@@ -358,8 +422,22 @@ func (p *Program) assertStructure() {
 				case *ssa.TypeAssert:
 					bad(f, in, "type assertion")
 				case *ssa.MakeClosure:
-					if len(x.Bindings) > 0 {
-						bad(f, in, "closure with free variables")
+					// closures are analysed lambda-lifted (Formals/Actuals); the closure value itself must only be
+					// called directly or handed to sync.Once.Do
+					for _, ref := range *x.Referrers() {
+						switch r := ref.(type) {
+						case *ssa.DebugRef:
+						case ssa.CallInstruction:
+							if r.Common().Value == ssa.Value(x) {
+								continue
+							}
+							if cal := r.Common().StaticCallee(); cal != nil && cal.Pkg != nil && cal.Pkg.Pkg.Path() == "sync" && cal.Name() == "Do" {
+								continue
+							}
+							bad(f, in, "closure passed to a function other than sync.Once.Do")
+						default:
+							bad(f, in, "closure value stored or combined (only direct calls are modelled)")
+						}
 					}
 				case *ssa.Call:
 					cc := x.Common()
